@@ -236,3 +236,194 @@ example : readBpm (intRender.line (writeBpm { offset := 1000, bpm := 120, kiai :
   rw [this]; decide +kernel
 
 end Reamber.Osu
+
+namespace Reamber.Osu
+
+/-- a written hit line is classified as a hit and not as a hold -/
+theorem classify_writeHit (R : Render) (h : Hit) (k : Int) (hf1 : ',' ∉ h.file) (hf2 : ':' ∉ h.file) :
+    isHit (R.line (writeHit h k)) = true ∧ isHold (R.line (writeHit h k)) = false := by
+  rw [line_writeHit]
+  have H := counts_of_fields (showInt (colToX h.column k)) (showInt 192) (showInt (pyTrunc h.offset)) (showInt 1)
+    (showInt h.hitsoundSet) (hitExtras h) (by simp [hitExtras])
+    (showInt_no_comma _) (showInt_no_comma _) (showInt_no_comma _) (showInt_no_comma _) (showInt_no_comma _)
+    (showInt_no_colon _) (showInt_no_colon _) (showInt_no_colon _) (showInt_no_colon _) (showInt_no_colon _)
+    (by intro p hp; simp only [hitExtras, List.mem_cons, List.not_mem_nil, or_false] at hp
+        rcases hp with rfl | rfl | rfl | rfl | rfl
+        · exact showInt_no_comma _
+        · exact showInt_no_comma _
+        · exact showInt_no_comma _
+        · exact showInt_no_comma _
+        · exact hf1)
+    (by intro p hp; simp only [hitExtras, List.mem_cons, List.not_mem_nil, or_false] at hp
+        rcases hp with rfl | rfl | rfl | rfl | rfl
+        · exact showInt_no_colon _
+        · exact showInt_no_colon _
+        · exact showInt_no_colon _
+        · exact showInt_no_colon _
+        · exact hf2)
+  obtain ⟨_, _, hcomma, hcolon⟩ := H
+  have hlen : (hitExtras h).length = 5 := rfl
+  rw [hlen] at hcolon
+  have hcolon4 := Nat.succ.inj hcolon
+  unfold isHit isHold
+  simp only [hitFields]
+  simp [hcolon4, hcomma]
+
+/-- a written hold line is classified as a hold and not as a hit -/
+theorem classify_writeHold (R : Render) (h : Hold) (k : Int) (hf1 : ',' ∉ h.file) (hf2 : ':' ∉ h.file) :
+    isHit (R.line (writeHold h k)) = false ∧ isHold (R.line (writeHold h k)) = true := by
+  rw [line_writeHold]
+  have H := counts_of_fields (showInt (colToX h.column k)) (showInt 192) (showInt (pyTrunc h.offset)) (showInt 128)
+    (showInt h.hitsoundSet) (holdExtras h) (by simp [holdExtras])
+    (showInt_no_comma _) (showInt_no_comma _) (showInt_no_comma _) (showInt_no_comma _) (showInt_no_comma _)
+    (showInt_no_colon _) (showInt_no_colon _) (showInt_no_colon _) (showInt_no_colon _) (showInt_no_colon _)
+    (by intro p hp; simp only [holdExtras, List.mem_cons, List.not_mem_nil, or_false] at hp
+        rcases hp with rfl | rfl | rfl | rfl | rfl | rfl
+        · exact showInt_no_comma _
+        · exact showInt_no_comma _
+        · exact showInt_no_comma _
+        · exact showInt_no_comma _
+        · exact showInt_no_comma _
+        · exact hf1)
+    (by intro p hp; simp only [holdExtras, List.mem_cons, List.not_mem_nil, or_false] at hp
+        rcases hp with rfl | rfl | rfl | rfl | rfl | rfl
+        · exact showInt_no_colon _
+        · exact showInt_no_colon _
+        · exact showInt_no_colon _
+        · exact showInt_no_colon _
+        · exact showInt_no_colon _
+        · exact hf2)
+  obtain ⟨_, _, hcomma, hcolon⟩ := H
+  have hlen : (holdExtras h).length = 6 := rfl
+  rw [hlen] at hcolon
+  have hcolon5 := Nat.succ.inj hcolon
+  unfold isHit isHold
+  simp only [holdFields]
+  simp [hcolon5, hcomma]
+
+/-- the hypotheses on one object of a chart: column inside the key count, file name free of separators -/
+def ObjOk (k : Int) : Obj → Prop
+  | .hit h => 0 ≤ h.column ∧ h.column < k ∧ ',' ∉ h.file ∧ ':' ∉ h.file
+  | .hold h => 0 ≤ h.column ∧ h.column < k ∧ ',' ∉ h.file ∧ ':' ∉ h.file
+
+/-- **the whole `[HitObjects]` section**: for every list of objects (any length, any interleaving of hits and
+holds), classifying the written lines by counting and reading them back yields exactly the quantized hits and the
+quantized holds, in file order -/
+theorem readObjs_writeObjs (R : Render) (k : Int) (hk : 0 < k) (hk' : k ≤ 256) (objs : List Obj)
+    (hok : ∀ o ∈ objs, ObjOk k o) :
+    mapE (fun s => readHit s k) (((objs.map (writeObj k)).map R.line).filter isHit)
+      = .ok ((objs.filterMap objHit).map qHit) ∧
+    mapE (fun s => readHold s k) (((objs.map (writeObj k)).map R.line).filter isHold)
+      = .ok ((objs.filterMap objHold).map qHold) := by
+  induction objs with
+  | nil => exact ⟨rfl, rfl⟩
+  | cons o os ih =>
+    obtain ⟨ih1, ih2⟩ := ih (fun o' ho' => hok o' (by simp [ho']))
+    have ho := hok o (by simp)
+    cases o with
+    | hit h =>
+      obtain ⟨a, b, c, d⟩ := ho
+      obtain ⟨c1, c2⟩ := classify_writeHit R h k c d
+      have r := readHit_writeHit R h k hk hk' a b c d
+      constructor
+      · simp only [List.map_cons, writeObj, List.filter_cons, c1, if_true, mapE, r, ih1, List.filterMap_cons, objHit]
+      · simp only [List.map_cons, writeObj, List.filter_cons, c2, objHold, List.filterMap_cons]
+        exact ih2
+    | hold h =>
+      obtain ⟨a, b, c, d⟩ := ho
+      obtain ⟨c1, c2⟩ := classify_writeHold R h k c d
+      have r := readHold_writeHold R h k hk hk' a b c d
+      constructor
+      · simp only [List.map_cons, writeObj, List.filter_cons, c1, objHit, List.filterMap_cons]
+        exact ih1
+      · simp only [List.map_cons, writeObj, List.filter_cons, c2, if_true, mapE, r, ih2, List.filterMap_cons, objHold]
+
+end Reamber.Osu
+
+namespace Reamber.Osu
+
+/-- the renderer hypotheses for the floats of one tempo line (true of Python's `repr` on doubles) -/
+def BpmOk (R : Render) (b : Bpm) : Prop :=
+  b.bpm ≠ 0 ∧ readFloat (R.repr b.offset) = .ok b.offset ∧
+  readFloat (R.repr (bpmCode b.bpm)) = .ok (bpmCode b.bpm) ∧ ',' ∉ R.repr b.offset ∧ ',' ∉ R.repr (bpmCode b.bpm)
+
+def SvOk (R : Render) (b : Sv) : Prop :=
+  b.multiplier ≠ 0 ∧ readFloat (R.repr b.offset) = .ok b.offset ∧
+  readFloat (R.repr (svCode b.multiplier)) = .ok (svCode b.multiplier) ∧ ',' ∉ R.repr b.offset ∧
+  ',' ∉ R.repr (svCode b.multiplier)
+
+theorem split_writeBpm (R : Render) (b : Bpm) (hno : ',' ∉ R.repr b.offset) (hnc : ',' ∉ R.repr (bpmCode b.bpm)) :
+    splitOn ',' (R.line (writeBpm b)) = bpmFields R b := by
+  rw [line_writeBpm]
+  apply splitOn_joinWith ',' _ (by simp [bpmFields])
+  intro p hp
+  simp only [bpmFields, List.mem_cons, List.not_mem_nil, or_false] at hp
+  rcases hp with rfl | rfl | rfl | rfl | rfl | rfl | rfl | rfl
+  · exact hno
+  · exact hnc
+  all_goals exact showInt_no_comma _
+
+theorem split_writeSv (R : Render) (b : Sv) (hno : ',' ∉ R.repr b.offset) (hnc : ',' ∉ R.repr (svCode b.multiplier)) :
+    splitOn ',' (R.line (writeSv b)) = svFields R b := by
+  rw [line_writeSv]
+  apply splitOn_joinWith ',' _ (by simp [svFields])
+  intro p hp
+  simp only [svFields, List.mem_cons, List.not_mem_nil, or_false] at hp
+  rcases hp with rfl | rfl | rfl | rfl | rfl | rfl | rfl | rfl
+  · exact hno
+  · exact hnc
+  all_goals exact showInt_no_comma _
+
+theorem classify_writeBpm (R : Render) (b : Bpm) (hno : ',' ∉ R.repr b.offset) (hnc : ',' ∉ R.repr (bpmCode b.bpm)) :
+    isTimingPoint (R.line (writeBpm b)) = true ∧ isSliderVelocity (R.line (writeBpm b)) = false := by
+  unfold isTimingPoint isSliderVelocity
+  simp only [split_writeBpm R b hno hnc]
+  simp [bpmFields, showInt_one]
+
+theorem classify_writeSv (R : Render) (b : Sv) (hno : ',' ∉ R.repr b.offset) (hnc : ',' ∉ R.repr (svCode b.multiplier)) :
+    isTimingPoint (R.line (writeSv b)) = false ∧ isSliderVelocity (R.line (writeSv b)) = true := by
+  unfold isTimingPoint isSliderVelocity
+  simp only [split_writeSv R b hno hnc]
+  simp [svFields, showInt_zero]
+
+theorem bpmLines (R : Render) (bpms : List Bpm) (hb : ∀ b ∈ bpms, BpmOk R b) :
+    ((bpms.map writeBpm).map R.line).filter isSliderVelocity = [] ∧
+    mapE readBpm (((bpms.map writeBpm).map R.line).filter isTimingPoint) = .ok (bpms.map qBpm) := by
+  induction bpms with
+  | nil => exact ⟨rfl, rfl⟩
+  | cons b bs ih =>
+    obtain ⟨i1, i2⟩ := ih (fun b' hb' => hb b' (by simp [hb']))
+    obtain ⟨h0, h1, h2, h3, h4⟩ := hb b (by simp)
+    obtain ⟨c1, c2⟩ := classify_writeBpm R b h3 h4
+    have r := readBpm_writeBpm R b h0 h1 h2 h3 h4
+    constructor
+    · simp only [List.map_cons, List.filter_cons, c2]; exact i1
+    · simp only [List.map_cons, List.filter_cons, c1, if_true, mapE, r, i2]
+
+theorem svLines (R : Render) (svs : List Sv) (hs : ∀ b ∈ svs, SvOk R b) :
+    ((svs.map writeSv).map R.line).filter isTimingPoint = [] ∧
+    mapE readSv (((svs.map writeSv).map R.line).filter isSliderVelocity) = .ok svs := by
+  induction svs with
+  | nil => exact ⟨rfl, rfl⟩
+  | cons b bs ih =>
+    obtain ⟨i1, i2⟩ := ih (fun b' hb' => hs b' (by simp [hb']))
+    obtain ⟨h0, h1, h2, h3, h4⟩ := hs b (by simp)
+    obtain ⟨c1, c2⟩ := classify_writeSv R b h3 h4
+    have r := readSv_writeSv R b h0 h1 h2 h3 h4
+    constructor
+    · simp only [List.map_cons, List.filter_cons, c1]; exact i1
+    · simp only [List.map_cons, List.filter_cons, c2, if_true, mapE, r, i2]
+
+/-- **the whole `[TimingPoints]` section**: the lines `write` emits (all tempo points, then all scroll velocities),
+classified by field 6 and read back, are the tempo points (metronome truncated, bpm exact) and the scroll
+velocities (unchanged) — for lists of any length; parametric in the float renderer -/
+theorem readTiming_writeTiming (R : Render) (bpms : List Bpm) (svs : List Sv)
+    (hb : ∀ b ∈ bpms, BpmOk R b) (hs : ∀ b ∈ svs, SvOk R b) :
+    mapE readSv (((bpms.map writeBpm ++ svs.map writeSv).map R.line).filter isSliderVelocity) = .ok svs ∧
+    mapE readBpm (((bpms.map writeBpm ++ svs.map writeSv).map R.line).filter isTimingPoint) = .ok (bpms.map qBpm) := by
+  obtain ⟨b1, b2⟩ := bpmLines R bpms hb
+  obtain ⟨s1, s2⟩ := svLines R svs hs
+  simp only [List.map_append, List.filter_append, b1, s1, List.nil_append, List.append_nil]
+  exact ⟨s2, b2⟩
+
+end Reamber.Osu
